@@ -149,6 +149,13 @@ func (j *tcpJob) WriteMsg(m *dns.Msg) error {
 	// The full-length slice matters: PackBuffer selects the caller's
 	// buffer by len, not cap, so a zero-length slice allocated every
 	// Msg-path reply while the slab sat idle.
+	//
+	// And it is cleared first. The library's packer steps over octets it
+	// does not write (an A record whose address is a 16-byte non-IPv4
+	// value advances four octets and leaves them), which in a fresh buffer
+	// are zero and in this slab — reused across connections — are whatever
+	// the previous reply left there: another client's bytes on the wire.
+	clear(j.tx[dnsclient.FramePrefixLen:])
 	out, err := m.PackBuffer(j.tx[dnsclient.FramePrefixLen:])
 	if err != nil {
 		return err
